@@ -337,6 +337,28 @@ func runC16(c *Ctx) {
 		}
 		rec(nil)
 	}
+	// the zero-copy write path (WriteColumn + Flush) hands column memory to the socket: directed histories that use a
+	// column again after such a write, on every fixed-width leaf kind and on wrappers of them
+	for _, s := range []string{"UUID", "Array(UUID)", "Nullable(UUID)", "Map(String, String)", "UInt64", "Int128", "Float64", "DateTime", "FixedString(16)", "IPv6", "Date32",
+		"Array(Int32)", "Nullable(Float32)", "Tuple(String, Int64)", "Bool", "Decimal128", "JSON"} {
+		t, err := parseCH(s)
+		if err != nil {
+			continue
+		}
+		if _, err := newColumn(t); err != nil {
+			continue
+		}
+		for _, h := range [][]string{
+			{"append", "write", "rows", "write"},
+			{"append", "write", "encode"},
+			{"append", "write", "append", "write"},
+			{"append", "write", "append", "block"},
+			{"append", "block", "write", "rows", "encode"},
+			{"append", "write", "write", "rows"},
+		} {
+			c16History(c, r.Fork(), t, len(h), h)
+		}
+	}
 	n := 250
 	if c.Thorough {
 		n = 8000
